@@ -123,7 +123,11 @@ def build(case):
     spec.notes['fortran'] = bool(o['fortran'])
     spec.notes['raw_symlink'] = bool(o['raw_symlink'])
     spec.notes['raw_same_name'] = case['seed'][2] % 3 == 1         # parts named run<k>/continuous.<ext>
-    spec.notes['raw_stray_byte'] = case['seed'][2] % 5 == 2        # the last raw file ends in the middle of a sample (one extra byte)
+    spec.notes['raw_stray_byte'] = {2: 1, 4: 4}.get(case['seed'][2] % 5, 0)        # the last raw file ends in the middle of a sample (1 extra byte) / of a row (4)
+    if case['seed'][2] % 5 == 4 and spec.raw is not None and spec.raw_ext != '.npy' and spec.raw.dtype.itemsize == 2:
+        spec.raw_offset = 6            # a header that is not a whole number of rows either
+    if case['seed'][2] % 6 == 3:
+        spec.notes['npy_version'] = [(2, 0), (3, 0)][case['seed'][2] % 12 == 3]      # array files in a later .npy format
     if o['names'] == 'alf' and case['seed'][2] % 4 == 1:
         spec.notes['alf_samples_suffix'] = ['ks2', '7a3f'][case['seed'][2] % 8 == 1]      # spikes.samples.<extra part>.npy (ALF names may carry extra parts)
     spec.notes['ks2_templates_ind'] = bool(o['ks2_file'])
